@@ -370,6 +370,9 @@ class CFG:
                         names.add(t)
                     elif isinstance(s.value, ast.Name) and s.value.id.startswith(("__ret", "__val")):
                         names.add(t)
+                    elif isinstance(s.value, ast.Constant) and (s.value.value is None or isinstance(s.value.value, bool)):
+                        # any local that is set to None/True/False somewhere: `x = None … if x is None: continue` is decided on that path
+                        names.add(t)
             self.__dict__["_flag_names_memo"] = names
         return names
 
